@@ -23,7 +23,8 @@ TIERS = {
     "quick": {"runs": 1200, "max_wall": 240, "minimise_s": 25, "chunk": 25},
     "thorough": {"runs": 40000, "max_wall": 3000, "minimise_s": 60, "chunk": 100},
 }
-FAULT_KINDS = ["EIO", "ENOSPC (short write)", "EACCES", "directory not writable during one attempt (save refused without raising)", "mutation during serialisation (schedule)", "mutation between write and flag clear"]
+FAULT_KINDS = ["EIO", "ENOSPC (short write)", "EACCES", "directory not writable during one attempt (save refused without raising)", "mutation during serialisation (schedule)", "mutation between write and flag clear",
+               "stop() at the instant a scheduled save fails (threaded): stop's own save is the next attempt"]
 REAL = ["mysensors.task (_schedule_factory of SyncTasks and AsyncTasks, stop)", "mysensors.persistence", "pickle / json serialisers", "pump, reader, handlers"]
 STUBS = ["threading.Timer -> SimTimer", "asyncio loop clock and executor (kernel controlled threads)", "file system (SimFS)", "serial port / socket"]
 ASSUMPTIONS = ["pre-emption at Python source lines (mysensors/*, json/encoder.py) and at blocking shims; the C pickler is atomic between __getstate__ calls"]
